@@ -40,7 +40,16 @@ func readIgnoreFile(fs billy.Filesystem, path []string, ignoreFile string) (ps [
 		// comes with the tree and may point anywhere, inside .git or outside
 		// the worktree. Like git (which opens these files with O_NOFOLLOW
 		// since 2.32) treat a symlinked .gitignore as if it were not there.
-		if fi, lerr := fs.Lstat(name); lerr == nil && fi.Mode()&os.ModeSymlink != 0 {
+		fi, lerr := fs.Lstat(name)
+		if lerr != nil {
+			if os.IsNotExist(lerr) {
+				return nil, nil
+			}
+			// It could not be inspected, so it might be a link: opening
+			// it would follow it.
+			return nil, lerr
+		}
+		if fi.Mode()&os.ModeSymlink != 0 {
 			return nil, nil
 		}
 	}
